@@ -10,7 +10,11 @@
 //! through the real table blueprints.
 //!
 //! input  = (cap pre_cons pre_txs ops)
-//!   op   = (0 call) | (1 callA callB) | (2)            callB is attempted while callA is in flight
+//!   op   = (0 call) | (1 callA callB) | (2) | (3 callA (callB ..))
+//!          (1 ..): callB is attempted while callA is in flight inside a port
+//!          (3 ..): callA parks on back-pressure (notification buffer full), the calls B are attempted meanwhile,
+//!                  then the subscriber releases its results and callA proceeds; if callA returns without parking
+//!                  the calls B are not made and the subscriber releases afterwards
 //!   call = (0 block local mroot mark wp_ok dbc_ok) | (1 block verify_ok exec dbc_ok)
 //!   exec = () | (mroot mark)          block = (height consensus txs)   consensus 0 = Genesis, 1 = PoA
 //! observation = list over ops of lists of phases; phase = (result db events)
@@ -475,6 +479,48 @@ fn take_log(sh: &Shared) -> T {
     T::l(std::mem::take(&mut *sh.log.lock().unwrap()))
 }
 
+/// a waker that records that it was woken, so that a call can be driven step by step: it is polled
+/// again only after the event it waits for (answer of the importer thread, a freed permit) happened
+#[derive(Default)]
+struct WakeFlag {
+    m: Mutex<bool>,
+    cv: Condvar,
+}
+impl std::task::Wake for WakeFlag {
+    fn wake(self: Arc<Self>) {
+        *self.m.lock().unwrap() = true;
+        self.cv.notify_all();
+    }
+}
+
+fn poll_manual(f: &mut CallFut<'_>, wf: &Arc<WakeFlag>) -> std::task::Poll<Result<(), Error>> {
+    *wf.m.lock().unwrap() = false;
+    let waker = std::task::Waker::from(wf.clone());
+    let mut cx = std::task::Context::from_waker(&waker);
+    f.as_mut().poll(&mut cx)
+}
+
+/// wait (real time) until the waker was woken; false if that does not happen
+fn wait_wake(wf: &Arc<WakeFlag>) -> bool {
+    let g = wf.m.lock().unwrap();
+    let (g, res) = wf
+        .cv
+        .wait_timeout_while(g, std::time::Duration::from_secs(30), |woken| !*woken)
+        .unwrap();
+    drop(g);
+    !res.timed_out()
+}
+
+/// drive a call to its end, polling only after wake-ups
+fn drive(f: &mut CallFut<'_>, wf: &Arc<WakeFlag>) -> Result<(), Error> {
+    loop {
+        if let std::task::Poll::Ready(r) = poll_manual(f, wf) {
+            return r;
+        }
+        assert!(wait_wake(wf), "a call neither returned nor was woken");
+    }
+}
+
 /// poll a future once
 async fn poll_once<'a>(f: &mut CallFut<'a>) -> Option<Result<(), Error>> {
     tokio::select! {
@@ -488,6 +534,14 @@ pub fn run(input: &T) -> T {
     let input = input.clone();
     // the importer owns threads: run on a plain thread; a panic is `(-777)`, a case that does not
     // finish within the watchdog time is `(-778)` (its threads are abandoned)
+    if let Ok(path) = std::env::var("VERIF_PANIC_LOG") {
+        std::panic::set_hook(Box::new(move |info| {
+            use std::io::Write;
+            if let Ok(mut f) = std::fs::OpenOptions::new().create(true).append(true).open(&path) {
+                let _ = writeln!(f, "{info}");
+            }
+        }));
+    }
     let (txr, rxr) = std::sync::mpsc::channel();
     std::thread::spawn(move || {
         let r = std::panic::catch_unwind(std::panic::AssertUnwindSafe(|| run_inner(&input)));
@@ -628,6 +682,89 @@ fn run_inner(input: &T) -> T {
                     drain(&sh);
                     out.push(T::l(vec![T::l(vec![T::l(vec![]), obs.db_t(&sh), take_log(&sh)])]));
                 }
+                3 => {
+                    let a = parse_call(&o[1]);
+                    let bs: Vec<Call> = o[2].as_l().iter().map(parse_call).collect();
+                    let buffer_full = sh.held.lock().unwrap().len() >= cap;
+                    let wf = Arc::new(WakeFlag::default());
+                    let mut phases = vec![];
+                    let mut fa = start(&imp, &sh, &a, serial);
+                    serial += 1;
+                    let keep_fail = sh.fail_commit.load(Ordering::SeqCst);
+                    // drive the first call until it returns or is parked on the back-pressure semaphore:
+                    // commit_result asks for the permit at once, execute_and_commit after its prepare step
+                    // (one answer of the importer thread)
+                    let mut ra = None;
+                    if matches!(a, Call::Exec { .. }) {
+                        // hold the prepare step inside the verifier until the call has been polled, so that the
+                        // answer of the importer thread arrives (and wakes the call) strictly after that poll
+                        let _open = OpenGates(sh.clone());
+                        sh.ver_gate.arm();
+                        fa = start(&imp, &sh, &a, serial - 1);
+                        match poll_manual(&mut fa, &wf) {
+                            std::task::Poll::Ready(r) => {
+                                sh.ver_gate.release();
+                                ra = Some(r);
+                            }
+                            std::task::Poll::Pending => {
+                                sh.ver_gate.wait_reached();
+                                sh.ver_gate.release();
+                                assert!(wait_wake(&wf), "no answer to the prepare step");
+                                if let std::task::Poll::Ready(r) = poll_manual(&mut fa, &wf) {
+                                    ra = Some(r);
+                                }
+                            }
+                        }
+                    } else if let std::task::Poll::Ready(r) = poll_manual(&mut fa, &wf) {
+                        ra = Some(r);
+                    }
+                    if ra.is_none() && !buffer_full {
+                        ra = Some(drive(&mut fa, &wf));
+                    }
+                    if let Some(r) = ra {
+                        // not parked: the other calls are not made; the subscriber releases afterwards
+                        drain(&sh);
+                        phases.push(T::l(vec![res_t(&r), obs.db_t(&sh), take_log(&sh)]));
+                        sh.held.lock().unwrap().clear();
+                        drain(&sh);
+                        phases.push(T::l(vec![T::l(vec![]), obs.db_t(&sh), take_log(&sh)]));
+                    } else {
+                        // parked: the other calls are attempted now
+                        let mut in_flight = vec![];
+                        for b in &bs {
+                            let wfb = Arc::new(WakeFlag::default());
+                            let mut fb = start(&imp, &sh, b, serial);
+                            serial += 1;
+                            let rb = match poll_manual(&mut fb, &wfb) {
+                                std::task::Poll::Ready(r) => Some(r),
+                                std::task::Poll::Pending => None,
+                            };
+                            let rb_t = match &rb {
+                                Some(r) => res_t(r),
+                                None => T::l(vec![T::i(-1)]),
+                            };
+                            drain(&sh);
+                            phases.push(T::l(vec![rb_t, obs.db_t(&sh), take_log(&sh)]));
+                            if rb.is_none() {
+                                in_flight.push((fb, wfb));
+                            }
+                        }
+                        sh.fail_commit.store(keep_fail, Ordering::SeqCst);
+                        // the subscriber releases its results; the parked call proceeds
+                        sh.held.lock().unwrap().clear();
+                        let r = drive(&mut fa, &wf);
+                        drain(&sh);
+                        phases.push(T::l(vec![res_t(&r), obs.db_t(&sh), take_log(&sh)]));
+                        // calls that were (wrongly) accepted meanwhile are driven to their end as well
+                        for (mut fb, wfb) in in_flight {
+                            sh.held.lock().unwrap().clear();
+                            let r = drive(&mut fb, &wfb);
+                            drain(&sh);
+                            phases.push(T::l(vec![res_t(&r), obs.db_t(&sh), take_log(&sh)]));
+                        }
+                    }
+                    out.push(T::l(phases));
+                }
                 k => panic!("bad op {k}"),
             }
         }
@@ -672,6 +809,27 @@ impl Shadow {
             seen.push(*t);
         }
         rest && height_ok && fresh && self.held < self.cap
+    }
+    /// the call would park on back-pressure: buffer full and (for execute_and_commit) a successful prepare step
+    fn parks(&self, c: &Call) -> bool {
+        if self.held < self.cap {
+            return false;
+        }
+        match c {
+            Call::Commit { .. } => true,
+            Call::Exec { b, verify_ok, exec, .. } => {
+                let height_ok = !b.genesis && self.latest.is_some() && self.latest.unwrap().checked_add(1) == Some(b.h);
+                let mut seen = self.txs.clone();
+                let mut fresh = !self.blocks.contains(&b.h) && !self.cons.contains(&b.h);
+                for t in &b.txs {
+                    if seen.contains(t) {
+                        fresh = false;
+                    }
+                    seen.push(*t);
+                }
+                *verify_ok && exec.is_some() && height_ok && fresh
+            }
+        }
     }
     fn apply(&mut self, c: &Call) {
         if self.call_ok(c) {
@@ -800,7 +958,34 @@ pub fn gen(rng: &mut Rng, n: u64, tier: &str) -> Vec<T> {
         let mut ops = vec![];
         for _ in 0..len {
             let k = rng.below(12);
-            if k == 0 || (sh.held >= sh.cap && rng.chance(1, 2)) {
+            if sh.held >= sh.cap && rng.chance(1, 2) {
+                // the buffer is full: a call parks on back-pressure, others are attempted, then the release
+                let a = gen_call(rng, &mut sh, false);
+                let nb = 1 + rng.below(3);
+                let mut bs = vec![];
+                for _ in 0..nb {
+                    // same height as the parked call, the next one, or anything
+                    let mut b = gen_call(rng, &mut sh, false);
+                    let ha = match &a {
+                        Call::Commit { b, .. } | Call::Exec { b, .. } => b.h,
+                    };
+                    match (&mut b, rng.below(3)) {
+                        (Call::Commit { b: blk, .. }, 0) | (Call::Exec { b: blk, .. }, 0) => blk.h = ha,
+                        (Call::Commit { b: blk, .. }, 1) | (Call::Exec { b: blk, .. }, 1) => blk.h = ha.wrapping_add(1),
+                        _ => {}
+                    }
+                    bs.push(b);
+                }
+                let parks = sh.parks(&a);
+                if parks {
+                    sh.held = 0;
+                    sh.apply(&a);
+                } else {
+                    sh.apply(&a);
+                    sh.held = 0;
+                }
+                ops.push(T::l(vec![T::i(3), call_t(&a), T::l(bs.iter().map(call_t).collect())]));
+            } else if k == 0 || (sh.held >= sh.cap && rng.chance(1, 2)) {
                 sh.held = 0;
                 ops.push(T::l(vec![T::i(2)]));
             } else if k == 1 {
